@@ -172,7 +172,9 @@ def run(ck, prog, ctx):
         rets = []
         for kind, pos, d in pv.defs(calc).get(0, []):
             e = EX.rvalue(calc, d, 0, pos) if kind == "assign" else EX.call(calc, d, 0, pos)
-            if e[0] != "c" and not (kind == "call" and d.callee.method == "from_residual"):
+            from expr import symbols as _symbols
+            only_consts = e[0] == "c" or (not unknowns(e) and _symbols(e) and all(x.startswith("const:") for x in _symbols(e)))
+            if not only_consts and not (kind == "call" and d.callee.method == "from_residual"):
                 rets.append((d.line, e))
         if not rets:
             ck.ob("FORMULA", "calculate", False, "InformationContent::calculate returns only constants: -ln(current/total) is not computed", where=calc.where())
@@ -200,4 +202,4 @@ def run(ck, prog, ctx):
     # ---- accessors: a method named after a field returns that field, not a sibling of the same type
     ck.rule("GETTER", "an accessor `f()` / `f_mut()` of a struct with a field `f` (or its documented alias) derives its result from that field (DESIGN 3.9)")
     from engines import check_getters
-    check_getters(ck, "GETTER", prog, r"^src/term/information_content\.rs$", floor=6)
+    check_getters(ck, "GETTER", prog, r"^src/term/information_content\.rs$", floor=3)
